@@ -17,6 +17,7 @@ import QuaiVerif.Driver.Crash
 import QuaiVerif.Driver.HeaderRules
 import QuaiVerif.Driver.Seal
 import QuaiVerif.Driver.Pool
+import QuaiVerif.Driver.Payout
 /- qvdriver: `qvdriver <area>` reads protocol lines on stdin, answers one line per line. -/
 open QuaiVerif
 
@@ -36,6 +37,7 @@ def main (args : List String) : IO UInt32 := do
   | ["utxo"] => ioLoop Utxo.step stdin stdout {}; return 0
   | ["mem"] => ioLoop Mem.step' stdin stdout (); return 0
   | ["c11"] => ioLoop Crash.step stdin stdout (); return 0
+  | ["c13chain"] => ioLoop Payout.step stdin stdout {}; return 0
   | ["c19"] => ioLoop Pool.step stdin stdout {}; return 0
   | ["c08"] => ioLoop Seal.step stdin stdout (); return 0
   | ["c09"] => ioLoop HeaderRules.step stdin stdout HeaderRules.Acc.genesis; return 0
